@@ -21,11 +21,11 @@ MODS = [("probe_mod", "var v = \"probe module\";\n"),
         ("needs_good", "import \"good\";\nfn twice() { return [good.bump(), good.bump()]; }\n")]
 
 
-def history(rng):
+def history(rng, n=None):
     r = rng
     steps = []
     defined = []
-    n = r.range(3, 12)
+    n = n or r.range(3, 12)
     k = 0
     for _ in range(n):
         k += 1
@@ -222,3 +222,9 @@ def history2(rng):
             steps.append(("snip", PROBE))
     steps.append(("snip", PROBE))
     return steps, MODS
+
+
+def long_history(rng):
+    """the same kinds of snippets, 40 to 150 of them on one interpreter: whatever a failed run, an import, a reset or a
+    probe battery leaves behind has dozens of later runs in which to show"""
+    return history(rng, n=rng.choice([40, 60, 64, 65, 100, 128, 150]))
